@@ -234,6 +234,7 @@ type run struct {
 	held     [][]vivid.ActorRef
 	curExt   int
 	panicked string
+	sends    map[uint64]int
 }
 
 func (r *run) keyOf(c *actor.Context) key {
@@ -458,8 +459,10 @@ func spawnCode(err error) uint64 {
 func (r *run) exec(c apiCtx, full vivid.ActorContext, who key, a Action, ext int, mode func(uint64) vivid.Behavior) {
 	switch a.K {
 	case aTell:
+		r.sends[a.Tag]++
 		c.Tell(r.evalRef(c, full, a.R, ext), &UMsg{a.Tag, a.Acts})
 	case aTellSelf:
+		r.sends[a.Tag]++
 		c.TellSelf(&UMsg{a.Tag, a.Acts})
 	case aKill:
 		c.Kill(r.evalRef(c, full, a.R, ext), a.Poison)
@@ -543,7 +546,9 @@ type result struct {
 	dead      map[uint64]int // tag -> dead-letter reports handled by the guard
 	zombieAte map[uint64]bool
 	finals    []finalInfo
-	sent      map[uint64]bool
+	sent      map[uint64]int
+	stashed   map[uint64]int
+	rootGot   map[uint64]int
 	choices   []vsched.Choice
 	rootState int32
 }
@@ -571,7 +576,7 @@ func execute(scripts [][]Action, choose func([]int, int) int) result {
 	if err := sys.Start(); err != nil {
 		panic(err)
 	}
-	r := &run{sys: sys, keys: map[*actor.Context]key{}, perPath: map[string]int{}, refKey: map[vivid.ActorRef]key{}, held: make([][]vivid.ActorRef, len(scripts))}
+	r := &run{sys: sys, sends: map[uint64]int{}, keys: map[*actor.Context]key{}, perPath: map[string]int{}, refKey: map[vivid.ActorRef]key{}, held: make([][]vivid.ActorRef, len(scripts))}
 	root := actor.XVRoot(sys)
 	rootKey := r.keyOf(root)
 	s := vsched.New(choose)
@@ -589,7 +594,7 @@ func execute(scripts [][]Action, choose func([]int, int) int) result {
 	shadow := map[*mailbox.UnboundedMailbox]*mbq{}
 	inhand := map[*mailbox.UnboundedMailbox]pushInfo{}
 	threadActor := map[int]key{}
-	res := result{dead: map[uint64]int{}, zombieAte: map[uint64]bool{}, sent: map[uint64]bool{}}
+	res := result{dead: map[uint64]int{}, zombieAte: map[uint64]bool{}, stashed: map[uint64]int{}, rootGot: map[uint64]int{}}
 	owner := func(m *mailbox.UnboundedMailbox) (*actor.Context, key) {
 		c := mailbox.XVHandler(m).(*actor.Context)
 		return c, r.keyOf(c)
@@ -668,7 +673,12 @@ func execute(scripts [][]Action, choose func([]int, int) int) result {
 			if k == rootKey && pi.kind == 12 {
 				res.dead[pi.tag]++
 			}
-			_ = c
+			if k == rootKey && pi.kind == 10 {
+				res.rootGot[pi.tag]++ // the guard's behaviour ran for it (and ignores user messages)
+			}
+			if pi.kind == 10 && actor.XVInfo(c).Zombie {
+				res.zombieAte[pi.tag] = true
+			}
 		}
 		return nil
 	}
@@ -687,6 +697,7 @@ func execute(scripts [][]Action, choose func([]int, int) int) result {
 	}
 	res.obs = r.obs
 	res.seens = r.seens
+	res.sent = r.sends
 	// final projection
 	for _, c := range r.order {
 		k := r.keys[c]
@@ -714,6 +725,11 @@ func execute(scripts [][]Action, choose func([]int, int) int) result {
 		res.final = append(res.final, lib.L(pathT(parsePath(k.path)), lib.NI(k.gen), lib.N(uint64(info.State)), lib.Bool(info.Zombie), lib.Bool(paused),
 			lib.N(uint64(sl)), lib.N(uint64(ul)), lib.NI(info.StashLen), lib.LS(ch), lib.LS(wa), lib.NI(info.StackLen), lib.N(inst), lib.Bool(reg)))
 		res.finals = append(res.finals, finalInfo{k: k, info: info, paused: paused, sysLen: sl, userLen: ul, reg: reg})
+		for _, e := range info.Stash {
+			if u, ok := e.Message().(*UMsg); ok {
+				res.stashed[u.Tag]++
+			}
+		}
 		if k == rootKey {
 			res.rootState = info.State
 		}
@@ -726,13 +742,10 @@ func execute(scripts [][]Action, choose func([]int, int) int) result {
 	sort.Strings(tys)
 	_ = tys
 	res.subs = streamT(st)
-	// tear the system down outside the controlled run (bounded)
-	done := make(chan struct{})
-	go func() { _ = sys.Stop(2 * time.Second); close(done) }()
-	select {
-	case <-done:
-	case <-time.After(5 * time.Second):
-	}
+	// The system is deliberately NOT stopped: stopping runs actor goroutines outside the controlled scheduler,
+	// and a straggler would then race into the next scenario's scheduler. When Run returns every goroutine
+	// of this system has finished (or is parked for ever after an overrun); only the context-guard and timer
+	// goroutines stay blocked, which is harmless for a short-lived harness process.
 	return res
 }
 
@@ -835,9 +848,9 @@ func (g *gen) acts(depth int, path []uint64, inHandler bool) []Action {
 			out = append(out, Action{K: aKill, R: g.ref(depth), Poison: g.r.Bool()})
 		case k < 17:
 			out = append(out, Action{K: aPanic})
-		case k < 18 && inHandler:
+		case k < 18 && inHandler && !hasKind(out, aUnstash):
 			out = append(out, Action{K: aStash})
-		case k < 20 && inHandler:
+		case k < 20 && inHandler && !hasKind(out, aStash):
 			a := Action{K: aUnstash}
 			if g.r.Bool() {
 				a.HasN = true
@@ -865,6 +878,15 @@ func (g *gen) acts(depth int, path []uint64, inHandler bool) []Action {
 		}
 	}
 	return out
+}
+
+func hasKind(as []Action, k int) bool {
+	for _, a := range as {
+		if a.K == k {
+			return true
+		}
+	}
+	return false
 }
 
 func (g *gen) spec(depth int, parent []uint64) *Spec {
@@ -974,6 +996,12 @@ func (h *H) emit(scripts [][]Action, res result) {
 	}
 	in := lib.L(lib.LS(sc), lib.LS(evs), lib.LS(res.query))
 	out := lib.L(lib.LS(outs), lib.LS(res.obs), lib.LS(res.final), res.subs, lib.Bool(false))
+	if res.overrun {
+		// the run was cut: there is no complete trace to compare, only the monitor below
+		h.o.Stats["overrun"]++
+		h.monitors(scripts, res, in)
+		return
+	}
 	h.o.Case(fmt.Sprintf("events<%d", ((len(evs)/50)+1)*50), len(res.finals) >= 3, in, out)
 	h.o.Stats["events"] += len(evs)
 	h.o.Stats["actors"] += len(res.finals)
@@ -999,10 +1027,7 @@ func (h *H) monitors(scripts [][]Action, res result, in lib.T) {
 			st[s.who] = l
 		}
 		switch {
-		case s.kind == 1:
-			if l.started && !l.dead {
-				h.o.Monitor("c05-second-launch", in, fmt.Sprintf("%v saw OnLaunch in the middle of an incarnation", s.who))
-			}
+		case s.kind == 1 && (!l.started || l.dead):
 			l.started, l.dead, l.killSeen = true, false, false
 		default:
 			if !l.started {
@@ -1072,50 +1097,22 @@ func (h *H) monitors(scripts [][]Action, res result, in lib.T) {
 }
 
 func (h *H) c03(res result, in lib.T, processed map[uint64]int) {
-	// pushes of user messages observed in the trace = messages that were actually sent
-	// (re-enqueues by Unstash push the same tag again; count distinct tags)
-	sent := map[uint64]bool{}
-	for _, e := range res.events {
-		s := lib.Show(e.out)
-		// out = ((path gen) sys (a tag)) for a user message push
-		if i := strings.Index(s, " (a "); i >= 0 && strings.HasSuffix(s, "))") {
-			tagHex := strings.TrimSuffix(s[i+4:], "))")
-			if !strings.ContainsAny(tagHex, " ()") {
-				if t, err := strconv.ParseUint(tagHex, 16, 64); err == nil {
-					sent[t] = true
+	for t, n := range res.sent {
+		if n == 0 {
+			continue
+		}
+		if res.dead[t] > n {
+			h.o.Monitor("c03-dead-letter-twice", in, fmt.Sprintf("user message %d was sent %d time(s) but reported as a dead letter %d times", t, n, res.dead[t]))
+		}
+		if processed[t] == 0 && res.rootGot[t] == 0 && res.dead[t] == 0 && res.stashed[t] == 0 && !res.zombieAte[t] {
+			where := ""
+			for _, f := range res.finals {
+				if f.userLen > 0 {
+					where += fmt.Sprintf(" [%v state=%d paused=%v holds %d queued user message(s)]", f.k, f.info.State, f.paused, f.userLen)
 				}
 			}
+			h.o.Monitor("c03-lost-message", in, fmt.Sprintf("user message %d was sent %d time(s) but was never processed, stashed or dead-lettered%s", t, n, where))
 		}
-	}
-	anyZombie := false
-	stashTotal := 0
-	queuedDead := int64(0)
-	for _, f := range res.finals {
-		if f.info.Zombie {
-			anyZombie = true
-		}
-		stashTotal += f.info.StashLen
-		if f.info.State != 0 || f.paused {
-			queuedDead += f.userLen
-		}
-	}
-	lost := 0
-	for t := range sent {
-		n := processed[t] + res.dead[t]
-		if n == 0 {
-			lost++
-		}
-		if res.dead[t] > 1 {
-			h.o.Monitor("c03-dead-letter-twice", in, fmt.Sprintf("user message %d was reported as a dead letter %d times", t, res.dead[t]))
-		}
-		if processed[t] > 0 && res.dead[t] > 0 {
-			// legal only through Stash/Unstash (processed, stashed, unstashed into a dead actor): needs a stash in the scenario
-			h.o.Stats["processed-and-dead"]++
-		}
-	}
-	// messages neither processed nor dead-lettered must be accounted for by stashes (or by a zombie, the documented exception)
-	if lost > stashTotal && !anyZombie {
-		h.o.Monitor("c03-lost-message", in, fmt.Sprintf("%d user message(s) were neither processed nor dead-lettered, but only %d are stashed (and %d sit in mailboxes of dead/paused actors)", lost, stashTotal, queuedDead))
 	}
 }
 
